@@ -2,12 +2,19 @@
 
 ENGINES = [
     {"name": "E1-explore", "path": "vf/explore.py",
-     "serves_properties": ["C01", "C03", "C04", "C06", "C19"],
+     "serves_properties": ["C01", "C03", "C04", "C06", "C17", "C19"],
      "kind_free_text": "explicit-state breadth-first exploration of operation "
      "histories on the real dclab objects; successor = replay of history+op "
      "on a fresh SUT; states merged by a canonical form of the "
      "implementation state; bounds on depth and deviations"},
 ]
+
+ENGINES.append(
+    {"name": "E3-enumerate", "path": "vf/props/",
+     "serves_properties": ["C20"],
+     "kind_free_text": "small-scope exhaustive enumerators (compositions, "
+     "all boolean masks / NaN placements, option products) run against the "
+     "real code with a reference oracle per case"})
 
 NOTES = ("All checks run /repo's working tree directly (editable install; "
          "compiled extensions are rebuilt from their generated .c when that "
@@ -112,5 +119,43 @@ CHECKS = {
                 "the file length.",
         "note": "requests/sockets replaced by an in-memory host (harness "
                 "process only); read(n) with n >= 0",
+    },
+    "C17": {
+        "engine": "E1-explore",
+        "level": "model_checking",
+        "technique": "explicit-state BFS over call sequences of the "
+                     "memoised functions (cache capacity 3) vs. the "
+                     "undecorated functions",
+        "text": "All call sequences (depth 3-5 quick / 4-6 thorough) over a "
+                "pool of adversarially similar arguments (same bytes with "
+                "other dtype, byte stream split differently between "
+                "arguments, keyword vs positional, strided views, (1,0) vs "
+                "(10,)) for kde_gauss/kde_histogram/kde_multivariate/"
+                "downsample_grid, interleaved with in-place mutation of the "
+                "last result, with eviction reachable; hashfile under 1-ns "
+                "mtime steps, same-size rewrites and file swaps; "
+                "LazyContourList(max_events=2) index/slice/mutate "
+                "sequences; read-mutate-read on hdf5, dict, hierarchy, "
+                "basin and mapped-basin feature arrays.",
+        "note": "cached.MAX_SIZE lowered to 3 (documented module global); "
+                "file modifications always change mtime_ns or size",
+    },
+    "C20": {
+        "engine": "E3-enumerate",
+        "level": "exploration",
+        "technique": "exhaustive enumeration of append compositions x NaN "
+                     "placements and production steps on the real writer/"
+                     "CLI vs. numpy nan-statistics",
+        "text": "Every composition of N (4,6 quick / 3-6 thorough) events "
+                "into append calls (one writer or re-opened per call) x all "
+                "2^N NaN placements, integer features, single events "
+                "(finite, NaN, inf), replace mode; then compress, repack, "
+                "condense, export (filtered/unfiltered), join of 2 and 3 "
+                "(incl. an all-NaN input), hierarchy child before/after "
+                "refresh, basin and mapped-basin access, each on files with "
+                "stored and with stripped summaries x 3 NaN variants: "
+                "min()/max()/mean() of the feature object equal numpy "
+                "nanmin/nanmax/nanmean of its data.",
+        "note": "mean compared to 1e-9 relative; N <= 6",
     },
 }
